@@ -410,13 +410,17 @@ impl<'ast, 'decls> ResolveIterator<'ast, 'decls>
                 let new_position = {
                     if addr.address >= bank.addr_start
                     {
-                        &addr.address.checked_sub(
+                        let addr_delta = addr.address.checked_sub(
                                 report,
                                 ast_addr.header_span,
                                 &bank.addr_start)?
                             .maybe_into::<usize>()
-                            .unwrap_or(0)
-                            * bank.addr_unit
+                            .unwrap_or(0);
+
+                        checked_position(
+                            report,
+                            ast_addr.header_span,
+                            addr_delta.checked_mul(bank.addr_unit))?
                     }
                     else
                     {
@@ -431,6 +435,27 @@ impl<'ast, 'decls> ResolveIterator<'ast, 'decls>
         }
 
         Ok(())
+    }
+}
+
+
+fn checked_position(
+    report: &mut diagn::Report,
+    span: diagn::Span,
+    maybe_position: Option<usize>)
+    -> Result<usize, ()>
+{
+    match maybe_position
+    {
+        Some(position) => Ok(position),
+        None =>
+        {
+            report.error_span(
+                "value is out of supported range",
+                span);
+
+            Err(())
+        }
     }
 }
 
